@@ -140,10 +140,16 @@ Last(p)         == p[Len(p)]
 StartsWithDot(d, key) == d = key \/ (Len(d) > Len(key) /\ IsPrefix(key, d))       \* d == key or d.startswith(key + ".")
 
 \* parser-level components of a shape, as instantiate_classes finds them
-DeclActions(d) == IF d.kind = "sub" THEN <<d.dest>> ELSE [i \in 1..Len(d.cparams) |-> d.dest \o <<d.cparams[i]>>]
+\* (round 4) two more kinds of declaration: "list" = a List[Class] argument whose value is a list of class specs, cparams =
+\* the names of its items in list order (the items are the objects dest \o <<name>>; the list itself is not an object);
+\* "opt" = an Optional[Class] argument whose value is None: a component that constructs nothing.
+DeclActions(d) == IF d.kind = "group" THEN [i \in 1..Len(d.cparams) |-> d.dest \o <<d.cparams[i]>>] ELSE <<d.dest>>
 CompDests(shape) == UNION {Range(DeclActions(shape.decl[i])) : i \in DOMAIN shape.decl}
                     \cup {shape.decl[i].dest : i \in DOMAIN shape.decl}
 IsGroup(shape, o) == \E i \in DOMAIN shape.decl : shape.decl[i].dest = o /\ shape.decl[i].kind = "group"
+IsList(shape, o)  == \E i \in DOMAIN shape.decl : shape.decl[i].dest = o /\ shape.decl[i].kind = "list"
+IsOpt(shape, o)   == \E i \in DOMAIN shape.decl : shape.decl[i].dest = o /\ shape.decl[i].kind = "opt"
+ItemsOf(shape, o) == LET d == shape.decl[CHOOSE i \in DOMAIN shape.decl : shape.decl[i].dest = o] IN [k \in DOMAIN d.cparams |-> o \o <<d.cparams[k]>>]
 \* the component whose instantiation constructs object o: the longest component dest that is a prefix of o
 OwnerOf(shape, o) == CHOOSE c \in CompDests(shape) : IsPrefix(c, o) /\ \A c2 \in CompDests(shape) : IsPrefix(c2, o) => Len(c2) <= Len(c)
 \* o2 is constructed as (part of) a constructor argument of o1
@@ -153,6 +159,17 @@ TargetKey(shape, l) == IF l.tobj \in shape.plains THEN l.tobj
                        ELSE IF IsGroup(shape, l.tobj) THEN l.tobj \o <<l.param>> ELSE l.tobj \o <<"init_args", l.param>>
 \* dest of the action that owns the target key (what _find_parent_action returns, :145)
 TargetAction(shape, l) == IF l.tobj \in shape.plains \/ IsGroup(shape, l.tobj) THEN TargetKey(shape, l) ELSE OwnerOf(shape, l.tobj)
+\* (round 4) a link source may be an object nested inside a class argument (m.init_args.enc, written "m.enc" / "m.enc.u" in
+\* the source key): SrcDest = dest of the action find_subclass_action_or_class_group returns (:46-60, the parent action
+\* of the key), AttrPath = what follows that dest in the source key
+SrcDest(shape, s)  == IF s.obj \in CompDests(shape) THEN s.obj ELSE OwnerOf(shape, s.obj)
+AttrPath(shape, s) == LET c == SrcDest(shape, s)
+                          NotIA(x) == x # "init_args"
+                      IN SelectSeq(SubSeq(s.obj, Len(c) + 1, Len(s.obj)), NotIA) \o (IF s.attr = "" THEN << >> ELSE <<s.attr>>)
+\* the objects a link feeds: every item of a List[Class] target, nothing when the target is an Optional argument that is None
+Receivers(shape, l) == IF IsList(shape, l.tobj) THEN Range(ItemsOf(shape, l.tobj)) ELSE IF l.tobj \in shape.objs THEN {l.tobj} ELSE {}
+\* every source of the link is an object that gets constructed (an Optional source that is None is not)
+LiveLink(shape, l)  == \A j \in DOMAIN l.srcs : l.srcs[j].obj \in shape.objs
 
 (***************************************************************************)
 (* Part B, Ref                                                             *)
@@ -161,7 +178,17 @@ TargetAction(shape, l) == IF l.tobj \in shape.plains \/ IsGroup(shape, l.tobj) T
 LinkEdgeSet(links) == UNION {{<<links[i].srcs[j].obj, links[i].tobj>> : j \in DOMAIN links[i].srcs} : i \in DOMAIN links}
 ArgEdges(objs)     == {<<o2, o1>> \in objs \X objs : Inside(o2, o1)}
 \* a link whose source can only exist after its target (the source contains the target) is outside the property
-Feasible(shape)    == ~Cyclic(LinkEdgeSet(shape.links) \cup ArgEdges(shape.objs))
+\* (round 4) a source nested inside a class argument (m.init_args.enc) only comes into existence while that argument is
+\* instantiated: the same dependency graph with such sources lifted to their component (m).  A link set that is
+\* cyclic only after the lifting (s --> m.q, m.enc --> s.p) is outside the property like the ones above.
+\* (not for a link whose sources and target lie inside ONE class argument: its source exists where it is applied)
+SameArgument(shape, l) == /\ l.tobj \notin shape.plains /\ ~IsGroup(shape, l.tobj) /\ ~IsList(shape, l.tobj)
+                          /\ \A j \in DOMAIN l.srcs : SrcDest(shape, l.srcs[j]) = OwnerOf(shape, l.tobj) /\ l.srcs[j].obj # SrcDest(shape, l.srcs[j])
+LiftedEdgeSet(shape, links) == UNION {{<<IF SameArgument(shape, links[i]) THEN links[i].srcs[j].obj ELSE SrcDest(shape, links[i].srcs[j]), links[i].tobj>>
+                                         : j \in DOMAIN links[i].srcs} : i \in DOMAIN links}
+AnyNestedSource(shape, links) == \E i \in DOMAIN links : \E j \in DOMAIN links[i].srcs : links[i].srcs[j].obj \notin CompDests(shape)
+Feasible(shape)    == /\ ~Cyclic(LinkEdgeSet(shape.links) \cup ArgEdges(shape.objs))
+                      /\ AnyNestedSource(shape, shape.links) => ~Cyclic(LiftedEdgeSet(shape, shape.links) \cup ArgEdges(shape.objs))
 
 \* a construction log is a sequence of events
 \*   [ev |-> "new", obj |-> object path, kw |-> function param -> value term]   a constructor call
@@ -194,12 +221,28 @@ FnCalledOnce(log, links) ==
      IF links[i].fn THEN Cardinality(calls) = 1 /\ \A n \in calls : FnVal(i, log[n].args) = Expected(links, i)
      ELSE calls = {}
 
+\* (round 4) the same clauses over shapes with List[Class] targets (every item is fed), Optional components that are None
+\* (nothing is constructed for them; what a link fed from a missing source delivers is not stated by the property: Ref is
+\* silent there, the others must still be ordered, constructed once and fed) and sources nested inside a class argument.
+\* On shapes without these features they coincide with BuiltBefore / ReceivesSource / FnCalledOnce above.
+LinkEdgeSetX(shape) == UNION {{<<shape.links[i].srcs[j].obj, r>> : j \in {x \in DOMAIN shape.links[i].srcs : shape.links[i].srcs[x].obj \in shape.objs},
+                                                                  r \in Receivers(shape, shape.links[i])} : i \in DOMAIN shape.links}
+BuiltBeforeX(shape, log) ==
+  \A e \in LinkEdgeSetX(shape) : NewOf(log, e[1]) # {} /\ NewOf(log, e[2]) # {} /\ FirstNew(log, e[1]) < FirstNew(log, e[2])
+ReceivesSourceX(shape, log) ==
+  \A i \in DOMAIN shape.links : LiveLink(shape, shape.links[i]) => \A r \in Receivers(shape, shape.links[i]) : \A n \in NewOf(log, r) :
+     shape.links[i].param \in DOMAIN log[n].kw /\ log[n].kw[shape.links[i].param] = Expected(shape.links, i)
+FnCalledOnceX(shape, log) ==
+  \A i \in DOMAIN shape.links : LET calls == {n \in DOMAIN log : log[n].ev = "fn" /\ log[n].link = i} IN
+     IF ~shape.links[i].fn THEN calls = {}
+     ELSE IF LiveLink(shape, shape.links[i]) THEN Cardinality(calls) = 1 /\ \A n \in calls : FnVal(i, log[n].args) = Expected(shape.links, i)
+     ELSE Cardinality(calls) <= 1
 RefInstOK(shape, log) == /\ ExactlyOnce(log, shape.objs)
-                         /\ BuiltBefore(log, shape.links, shape.objs)
-                         /\ ReceivesSource(log, shape.links)
+                         /\ BuiltBeforeX(shape, log)
+                         /\ ReceivesSourceX(shape, log)
 \* links into plain arguments: the returned configuration holds the value (final: plain path -> value term)
 RefPlainOK(shape, final) ==
-  \A i \in DOMAIN shape.links : shape.links[i].tobj \in shape.plains =>
+  \A i \in DOMAIN shape.links : (shape.links[i].tobj \in shape.plains /\ LiveLink(shape, shape.links[i])) =>
      (shape.links[i].tobj \in DOMAIN final /\ final[shape.links[i].tobj] = Expected(shape.links, i))
 
 \* "A set of links that would create a cycle is rejected when the link is added":
@@ -213,7 +256,8 @@ RefAddOK(shape, results) ==
   /\ \A i \in DOMAIN results :
         /\ results[i] \in {"ok", "rejected"}
         /\ Cyclic(LinkEdgeSet(SubLinks(links, i))) => results[i] = "rejected"
-        /\ ~Cyclic(LinkEdgeSet(SubLinks(links, i)) \cup ArgEdges(shape.objs)) => results[i] = "ok"
+        /\ (/\ ~Cyclic(LinkEdgeSet(SubLinks(links, i)) \cup ArgEdges(shape.objs))
+            /\ AnyNestedSource(shape, SubLinks(links, i)) => ~Cyclic(LiftedEdgeSet(shape, SubLinks(links, i)) \cup ArgEdges(shape.objs))) => results[i] = "ok"
         /\ results[i] = "rejected" => i = Len(results)
   /\ (Len(results) < Len(links) => Len(results) > 0 /\ results[Len(results)] = "rejected")
 AllAccepted(shape, results) == Len(results) = Len(shape.links) /\ \A i \in DOMAIN results : results[i] = "ok"
@@ -231,7 +275,7 @@ RECURSIVE LinkEdgeSeq(_, _, _)
 LinkEdgeSeq(shape, links, i) ==
   IF i > Len(links) THEN << >>
   ELSE LET t == TargetNode(TargetKey(shape, links[i])) IN
-       [j \in DOMAIN links[i].srcs |-> <<links[i].srcs[j].obj, t>>] \o LinkEdgeSeq(shape, links, i + 1)
+       [j \in DOMAIN links[i].srcs |-> <<SrcDest(shape, links[i].srcs[j]), t>>] \o LinkEdgeSeq(shape, links, i + 1)
 RECURSIVE TargetSeq(_, _, _, _)
 TargetSeq(shape, links, i, acc) ==
   IF i > Len(links) THEN acc
@@ -294,7 +338,8 @@ DeepestFirst(S) == IF S = {} THEN << >>
 \* is_nested_instantiation_link:481-491: source and target inside the same class argument (handled by the type hint)
 IsNestedLink(shape, l) ==
   /\ l.tobj \notin shape.plains /\ ~IsGroup(shape, l.tobj)
-  /\ \A j \in DOMAIN l.srcs : l.srcs[j].obj = TargetAction(shape, l) /\ l.srcs[j].attr # ""
+  /\ ~IsList(shape, l.tobj)                                          \* is_subclass_typehint without also_lists
+  /\ \A j \in DOMAIN l.srcs : SrcDest(shape, l.srcs[j]) = TargetAction(shape, l) /\ AttrPath(shape, l.srcs[j]) # << >>
 
 \* the state of one instantiate_classes call
 \*   built    objects constructed so far                 vals   target key -> value written by a link
@@ -306,12 +351,24 @@ MachineInit == [built |-> {}, vals |-> << >>, applied |-> {}, log |-> << >>, fai
 \* configuration by the dotted key: once a class group is instantiated its entry is the object, and a class-typed
 \* parameter below it (r.child) can no longer be reached (NSKeyError) -- recorded deviation nested-source-unreachable.
 SourceUnreachable(shape, m, s) == \E g \in m.built : IsGroup(shape, g) /\ Inside(s.obj, g)
+\* (round 4) :349 `attr = split_key_leaf(source_key)[1]` keeps only the LAST name of the source key, and :358 reads it from
+\* the object of the source action: for a source nested two or more names below the action ("m.enc.u", "m.enc.inner") the
+\* value is the attribute u of m itself -- or the link is ignored when m has no such attribute -- recorded deviation
+\* nested-attr-source (LeafOnly).  Universe: every object has the attributes u and v and one attribute per class-typed
+\* parameter, named like the parameter, holding the object it was given.
+ChildObj(shape, c, a)  == IF IsGroup(shape, c) THEN c \o <<a>> ELSE c \o <<"init_args", a>>
+LeafValue(shape, c, a) == IF a \in {"u", "v"} THEN Attr(c, a)
+                          ELSE IF ChildObj(shape, c, a) \in shape.objs THEN Obj(ChildObj(shape, c, a)) ELSE [k |-> "skip"]
+LeafOnly(shape, s)     == Len(AttrPath(shape, s)) >= 2
 SourceValue(shape, m, s) ==
-  IF SourceUnreachable(shape, m, s) THEN [k |-> "raise"]
-  ELSE IF s.obj \in m.built THEN SrcVal(s)
-  ELSE IF s.attr = "" THEN Stale(s.obj)                              \* :347 the Namespace of the spec is passed on
-  ELSE IF IsGroup(shape, s.obj) THEN [k |-> "raise"]                 \* :358 getattr(Namespace, attr)
-  ELSE [k |-> "skip"]                                                \* :352-357 "ignored since attribute not found"
+  LET c  == SrcDest(shape, s)
+      ap == AttrPath(shape, s)
+  IN IF SourceUnreachable(shape, m, s) THEN [k |-> "raise"]
+     ELSE IF IsOpt(shape, c) THEN (IF ap = << >> THEN None ELSE [k |-> "skip"])     \* cfg[dest] is None: passed on (:347) / no attribute (:352)
+     ELSE IF c \in m.built THEN (IF ap = << >> THEN Obj(c) ELSE LeafValue(shape, c, Last(ap)))   \* :347 / :349,:358
+     ELSE IF ap = << >> THEN Stale(c)                                   \* :347 the Namespace of the spec is passed on
+     ELSE IF IsGroup(shape, c) THEN [k |-> "raise"]                     \* :358 getattr(Namespace, attr)
+     ELSE [k |-> "skip"]                                                \* :352-357 "ignored since attribute not found"
 \* apply one link action (:343-367)
 ApplyLink(shape, m, i) ==
   LET l    == shape.links[i]
@@ -343,7 +400,9 @@ ApplyRest(shape, m, order) ==
   IN ApplyLinks(shape, m, idxs, 1)
 
 \* constructing one component (_core.py:1233-1248): its objects inner first, each with the values the links wrote
-KwOf(shape, m, o) == LET ps == {i \in DOMAIN shape.links : shape.links[i].tobj = o} IN
+\* (a link into a List[Class] argument writes the value into every item, set_target_value:392-396)
+FeedsObj(shape, l, o) == l.tobj = o \/ (Len(o) = Len(l.tobj) + 1 /\ IsPrefix(l.tobj, o) /\ IsList(shape, l.tobj))
+KwOf(shape, m, o) == LET ps == {i \in DOMAIN shape.links : FeedsObj(shape, shape.links[i], o)} IN
   [p \in {shape.links[i].param : i \in ps} |->
      LET i == CHOOSE x \in ps : shape.links[x].param = p
          k == TargetKey(shape, shape.links[i])
@@ -351,8 +410,17 @@ KwOf(shape, m, o) == LET ps == {i \in DOMAIN shape.links : shape.links[i].tobj =
 RECURSIVE NewEvents(_, _, _, _)
 NewEvents(shape, m, os, n) == IF n > Len(os) THEN << >>
                               ELSE <<[ev |-> "new", obj |-> os[n], kw |-> KwOf(shape, m, os[n])]>> \o NewEvents(shape, m, os, n + 1)
+\* (round 4) sibling nested classes are constructed in signature order (the inner parser of _typehints.py:636-662 adds
+\* the class-typed parameters in that order and has no links of its own here): a shape may carry `sig`, a sequence of its
+\* objects in which siblings appear in signature order; without it the order among siblings is left open (CHOOSE)
+RECURSIVE PostOrder(_, _)
+PostOrder(shape, o) == LET K(q) == Len(q) = Len(o) + 2 /\ IsPrefix(o, q) /\ q[Len(o) + 1] = "init_args"
+                           ks   == SelectSeq(shape.sig, K)
+                       IN Concat([k \in DOMAIN ks |-> PostOrder(shape, ks[k])], 1) \o <<o>>
 Construct(shape, m, c) ==
-  LET os == DeepestFirst(OwnedObjects(shape, c)) IN
+  LET os == IF IsList(shape, c) THEN ItemsOf(shape, c)                                                   \* _typehints.py:624 items in list order
+            ELSE IF "sig" \in DOMAIN shape /\ c \in shape.objs THEN PostOrder(shape, c)
+            ELSE DeepestFirst(OwnedObjects(shape, c)) IN
   [m EXCEPT !.built = @ \cup Range(os), !.log = @ \o NewEvents(shape, m, os, 1)]
 
 \* the loop of instantiate_classes:1231-1250 as a fold (MC_LinksInst runs the same steps as actions)
@@ -378,4 +446,25 @@ AlgAddLinksR(shape, n, repair) ==
   ELSE IF InstantiationOrderR(shape, SubLinks(shape.links, n), repair).raised THEN <<"rejected">>
   ELSE <<"ok">> \o AlgAddLinksR(shape, n + 1, repair)
 AlgAddLinks(shape, n) == AlgAddLinksR(shape, n, FALSE)
+
+(***************************************************************************)
+(* Round 4: recorded deviations of the extended universe, as predicates of *)
+(* the shape (shared by MC_LinksExt and Trace_Links)                       *)
+(***************************************************************************)
+NestedLinks(sh) == {i \in DOMAIN sh.links : IsNestedLink(sh, sh.links[i])}
+\* nested-attr-source: a source two or more names below its action is read by its last name only (:349)
+LeafLinks(sh)   == {i \in DOMAIN sh.links : \E j \in DOMAIN sh.links[i].srcs : LeafOnly(sh, sh.links[i].srcs[j])}
+\* nested-link-owner-targeted: a nested link contributes the edge m --> m.init_args.dec (:416-420, its source action is
+\* m), and the node m.init_args.dec gets an edge back to m as soon as m is itself a target node (:424-431) -- or the
+\* nested link feeds a parameter of m itself (edge m --> m): a cycle in the graph that is no cycle of links.  n = number
+\* of links added so far.
+OwnerTargeted(sh, n) == \E i \in 1..n : \E k \in 1..n :
+                           /\ IsNestedLink(sh, sh.links[i])
+                           /\ TargetNode(TargetKey(sh, sh.links[k])) = TargetAction(sh, sh.links[i])
+\* nested-cycle-accepted: the graph node of a source nested inside a class argument is the argument's action, and the
+\* node of a target nested inside a component is only tied to enclosing TARGETS: a cycle of links through such an
+\* object (s.u --> r.child.init_args.grand.init_args.p, r.child.grand --> s.q) is not a cycle of the graph
+HasNestedSource(sh, n) == \E i \in 1..n : \E j \in DOMAIN sh.links[i].srcs : sh.links[i].srcs[j].obj \notin CompDests(sh)
+NestedCycleAccepted(sh, results) == \E n \in DOMAIN results : /\ results[n] = "ok" /\ Cyclic(LinkEdgeSet(SubLinks(sh.links, n)))
+                                                              /\ HasNestedSource(sh, n)
 =============================================================================
